@@ -55,3 +55,43 @@ def build_array(arr, kind):
         from curtsies.formatstringarray import fsarray
         return fsarray(rows)
     return rows
+
+
+class QueryStream(CaptureStream):
+    """out_stream for CursorAwareWindow: answers every cursor position query (ESC[6n) through the
+    in_stream pty with the position the harness says the cursor is at (`pos`, 0-based row/col)."""
+
+    def __init__(self, h, w):
+        super().__init__(h, w)
+        self.in_master, self.in_slave = pty.openpty()
+        # byte-transparent input side
+        attrs = termios.tcgetattr(self.in_slave)
+        attrs[0] = 0
+        attrs[1] = 0
+        attrs[3] = 0
+        attrs[6][termios.VMIN] = 1
+        attrs[6][termios.VTIME] = 0
+        termios.tcsetattr(self.in_slave, termios.TCSANOW, attrs)
+        self.in_stream = open(self.in_slave, "r", closefd=False, newline="")
+        self.pos = (0, 0)
+        self.replies = []
+
+    def write(self, s):
+        n = s.count("\x1b[6n")
+        for _ in range(n):
+            r, c = self.pos() if callable(self.pos) else self.pos
+            os.write(self.in_master, b"\x1b[%d;%dR" % (r + 1, c + 1))
+            self.replies.append([r + 1, c + 1])
+        return super().write(s)
+
+    def close(self):
+        super().close()
+        try:
+            self.in_stream.close()
+        except Exception:  # noqa
+            pass
+        for fd in (self.in_master, self.in_slave):
+            try:
+                os.close(fd)
+            except OSError:
+                pass
